@@ -175,8 +175,8 @@ func NewStoreWithDB(config lib.Config, db *pebble.DB, metrics *lib.Metrics, log 
 	writer := db.NewBatch()
 	// make a versioned store from the current height and the latest height
 	// note: version for the versioned store may be overridden by the SetAt() and DeleteAt() code
-	hssStore := NewVersionedStore(db.NewSnapshot(), writer, version)
-	lssStore := NewVersionedStore(db.NewSnapshot(), writer, lssVersion)
+	hssStore := newSharedBatchStore(db.NewSnapshot(), writer, version)
+	lssStore := newSharedBatchStore(db.NewSnapshot(), writer, lssVersion)
 	// return the store object
 	return &Store{
 		version:    version,
@@ -231,8 +231,8 @@ func (s *Store) NewReadOnly(queryVersion uint64) (lib.StoreI, lib.ErrorI) {
 func (s *Store) Copy() (lib.StoreI, lib.ErrorI) {
 	// create a comparable writer and reader
 	writer := s.db.NewBatch()
-	reader := NewVersionedStore(s.db.NewSnapshot(), writer, s.version)
-	lssReader := NewVersionedStore(s.db.NewSnapshot(), writer, lssVersion)
+	reader := newSharedBatchStore(s.db.NewSnapshot(), writer, s.version)
+	lssReader := newSharedBatchStore(s.db.NewSnapshot(), writer, lssVersion)
 	// return the store object
 	return &Store{
 		version:    s.version,
@@ -578,8 +578,8 @@ func (s *Store) Reset() {
 	nextVersion := s.version + 1
 	newWriter := s.db.NewBatch()
 	// create new versioned stores first before discarding old ones
-	newLSSStore := NewVersionedStore(s.db.NewSnapshot(), newWriter, lssVersion)
-	newStore := NewVersionedStore(s.db.NewSnapshot(), newWriter, s.version)
+	newLSSStore := newSharedBatchStore(s.db.NewSnapshot(), newWriter, lssVersion)
+	newStore := newSharedBatchStore(s.db.NewSnapshot(), newWriter, s.version)
 	// create all new transaction-dependent objects
 	newLSS := NewTxn(newLSSStore, newStore, latestStatePrefix, true, true, true, nextVersion)
 	newIndexer := NewTxn(newStore, newStore, indexerPrefix, false, false, false, nextVersion)
@@ -601,6 +601,7 @@ func (s *Store) Discard() {
 	s.ss.Close()
 	s.sc = nil
 	s.Indexer.db.Close()
+	// the versioned stores above share the writer and leave it open: it is closed once, here
 	if s.writer != nil {
 		s.writer.Close()
 	}
